@@ -44,7 +44,7 @@ BOUND = {
     "thorough": "seq: length <=6; cat: L(4,3) x catalogue x every site x blanks 0..2; voc: full one-row product, two-row with one deviating slot, three-row malformed x representative",
 }
 # as-built additions to the bound (kept next to BOUND so that the evidence reports them)
-BOUND = {k: v + "; plus: " + '16 candidate names for the form itself (settings name / form_id, form_name argument) and for loop-built groups; alias / canonical header pairs in both column orders (survey, settings); a markdown row wider than its header; table-list groups around from-file / reference-built lists; a search() list shared with a randomize select; jr and flat headers; catalogue entries for entity save_to errors and for errors that depend on earlier rows; survey / choices column headers equal to internal keys; osm sheet variants' for k, v in BOUND.items()}
+BOUND = {k: v + "; plus: " + 'select-like types x list-affecting cells x 10 choices-sheet variants (also inside a table-list group); 16 candidate names for the form itself (settings name / form_id, form_name argument) and for loop-built groups; alias / canonical header pairs in both column orders (survey, settings); a markdown row wider than its header; table-list groups around from-file / reference-built lists; a search() list shared with a randomize select; jr and flat headers; catalogue entries for entity save_to errors and for errors that depend on earlier rows; survey / choices column headers equal to internal keys; osm sheet variants' for k, v in BOUND.items()}
 
 NAMES = ["a", "b", "d", "e", "f", "g"]
 CHOICES = [{"list_name": "c", "name": "x", "label": "X"}, {"list_name": "c", "name": "y", "label": "Y"}]
@@ -1019,6 +1019,21 @@ def gen_voc2(tier):
                         yield {"g": "voc", "rows": [r1, r2], "ctx": ctx, "ch": chv}
 
 
+def gen_vocsel(tier):
+    """every select-like type x the cells that change how its list is used x every choices-sheet variant (quick tier too)"""
+    sels = [t for t in VALID_TYPES + MALFORMED_TYPES if t.split(" ")[0] in ("select_one", "select_multiple", "rank", "select_one_from_file", "select_multiple_from_file", "select_one_external")
+            or t.startswith(("select one", "select all", "add select"))]
+    cells = [None, ["appearance", "search('f')"], ["appearance", "minimal search('f')"], ["parameters", "randomize=true"], ["parameters", "randomize=true seed=${t0}"],
+             ["choice_filter", "x=1"], ["appearance", "label"], ["appearance", "list-nolabel"], ["default", "x"], ["label::en", "E"]]
+    for t in sels:
+        for ex in cells:
+            for chv in CHOICE_SHEETS:
+                for ctx in ("top", "repeat", "loop"):
+                    yield {"g": "voc", "rows": [[t, "q", ex]], "ctx": ctx, "ch": chv}
+                # inside a table-list group
+                yield {"g": "voc", "rows": [["begin group", "q", ["appearance", "table-list"]], [t, "q2", ex], ["end group", "q3", None]], "ctx": "top", "ch": chv}
+
+
 def gen_voc3(tier):
     if tier != "thorough":
         return
@@ -1150,7 +1165,7 @@ def check_formname(case):
 # --------------------------------------------------------------------------- engine -----
 from xmc.spaces import GenSpace  # noqa: E402
 
-SPACE = GenSpace({"formnames": gen_formnames, "seq": gen_seq, "cat": gen_cat, "voc1": gen_voc1, "vocint": gen_vocint, "vocch": gen_vocch, "vocosm": gen_vocosm, "voc2": gen_voc2, "voc3": gen_voc3}, chunk=500)
+SPACE = GenSpace({"formnames": gen_formnames, "seq": gen_seq, "cat": gen_cat, "voc1": gen_voc1, "vocint": gen_vocint, "vocch": gen_vocch, "vocosm": gen_vocosm, "vocsel": gen_vocsel, "voc2": gen_voc2, "voc3": gen_voc3}, chunk=500)
 blocks = SPACE.blocks
 expand = SPACE.expand
 
